@@ -84,7 +84,10 @@ def detect(d, props):
     try:
         for p in props:
             t = time.time()
-            rc, out = sh(f"./check {p} quick", cwd=VERIF, timeout=3000)
+            env = dict(os.environ, CARGO_NET_OFFLINE="true")
+            env.pop("CARGO_TARGET_DIR", None)
+            pr = subprocess.run(f"./check {p} quick", shell=True, cwd=VERIF, env=env, stdout=subprocess.PIPE, stderr=subprocess.STDOUT, text=True, timeout=3000)
+            rc, out = pr.returncode, pr.stdout
             lines = [l for l in out.split("\n") if l.startswith(("VIOLATION", "KNOWN-FINDING"))]
             det[p] = {"exit": rc, "lines": lines, "wall_s": round(time.time() - t, 1)}
             print(name, p, rc, lines[:2], flush=True)
